@@ -44,6 +44,11 @@ def run(ctx):
         # thread that has logged, threads that registered since the last reload included (= C07.R1d)
         from rules import c07
         c07.r1d(ctx, facts, cfg, rule="C20.R8d")
+        # shrinking the backend's ring on request loses and reorders nothing: capacities are powers of two (mask = capacity - 1) at
+        # construction, after growth and after a shrink (= C03.R6 ring rules)
+        from rules import c03 as _c03
+        from rules.c09 import Renamed as _Ren9
+        _c03.r6_ring(_Ren9(ctx, "C03.R6", "C20.R9"), facts, cfg)
 
 
 def registry_walks(ctx, facts, cfg):
@@ -88,7 +93,15 @@ def registry_walks(ctx, facts, cfg):
     if loops:
         lp = loops[0]
         cnd = strip(lp.get("cond"))
-        whole = isnode(cnd) and is_call(cnd, r"operator!=") and any(is_call(x, r"std::vector<.*>::end$") and is_this_field(call_obj(x), "_thread_contexts") for x in walk(cnd)) and \
+        # the end of the walk: `_thread_contexts.end()` in the condition, or a local initialised once with it (nothing is inserted or erased
+        # inside the loop: the erase comes after it)
+        inits_ = f.var_inits()
+        end_locals = set(v for v, i in inits_.items() if isnode(i) and not f.assignments_to_var(v) and
+                         any(is_call(x, r"std::vector<.*>::c?end$") and is_this_field(call_obj(x), "_thread_contexts") for x in walk(i)))
+        in_loop_mut = [c for c in f.calls(r"std::vector<.*>::(erase|insert|push_back|emplace_back|clear|resize)$")
+                       if is_this_field(call_obj(c), "_thread_contexts") and in_subtree(c, lp.get("body") or {})]
+        whole = isnode(cnd) and is_call(cnd, r"operator!=") and (any(is_call(x, r"std::vector<.*>::end$") and is_this_field(call_obj(x), "_thread_contexts") for x in walk(cnd)) or
+                                                                 (not in_loop_mut and any(x["k"] == "DeclRefExpr" and x.get("did") in end_locals for x in walk(cnd)))) and \
             any(is_call(x, r"std::vector<.*>::begin$") and is_this_field(call_obj(x), "_thread_contexts") for x in walk(lp.get("init") or {}))
     elif f.calls(r"^std::find(_if)?\b"):
         whole = True
